@@ -863,3 +863,112 @@ theorem table_null_key_long_tail (o : Opts) (t : Tok) (s' : PS) (v : Val) (epost
   exact ⟨s3, r, by rw [h1, h4], h2, h5⟩
 
 end CifModel.Model.Parser
+
+namespace CifModel.Model.Parser
+open CifModel CifModel.Model CifModel.Model.Lexer CifModel.Spec.Grammar CifModel.Spec.Lexical
+open CifModel.Gen.ErrCodes
+
+/-! ## part 5 — reports of the scanner are transparent to the productions
+
+A class that the SCANNER reports (CIF_RESERVED_WORD: the word is reported and dropped inside next_token; likewise every lexical
+class) reaches the parser as "next_token handed out `t`, the log has grown".  Every production begins by asking for the next
+token, so its run from the state in front of the report equals its run from the state in which `t` is ready, with the grown log:
+the parser half of every scanner-level class.  Anchored at the scanner state (a report is not a token, `Feeds` cannot carry it). -/
+
+theorem nextTok_tok {o : Opts} {s s' : PS} {t : Tok} {pol : Policy} {w w' : W} (h : nextTok o s pol w = .ok (t, s') w') :
+    s'.tok = some t := by
+  unfold nextTok at h
+  cases hs : s.tok with
+  | some t0 =>
+    simp only [hs, pure_eq, P.pure, PRes.ok.injEq, Prod.mk.injEq] at h
+    obtain ⟨⟨rfl, rfl⟩, _⟩ := h
+    exact hs
+  | none =>
+    simp only [hs, bind_eq, pure_eq, P.bind, P.pure] at h
+    split at h
+    · simp only [PRes.ok.injEq, Prod.mk.injEq] at h
+      obtain ⟨⟨rfl, rfl⟩, _⟩ := h
+      rfl
+    · cases h
+
+theorem elemsLoop_peek (o : Opts) {s s' : PS} {t : Tok} {pol : Policy} {w w' : W} (h : nextTok o s pol w = .ok (t, s') w')
+    (f : Nat) (cont : Option Path) (isBlock : Bool) :
+    elemsLoop o (f + 1) s cont isBlock pol w = elemsLoop o (f + 1) s' cont isBlock pol w' := by
+  have ht := nextTok_tok h
+  conv => lhs; rw [elemsLoop]
+  conv => rhs; rw [elemsLoop]
+  simp only [bind_eq, P.bind, h, nextTok_pending o s' t ht]
+
+theorem parseValue_peek (o : Opts) {s s' : PS} {t : Tok} {pol : Policy} {w w' : W} (h : nextTok o s pol w = .ok (t, s') w')
+    (f : Nat) : parseValue o (f + 1) s pol w = parseValue o (f + 1) s' pol w' := by
+  have ht := nextTok_tok h
+  conv => lhs; rw [parseValue]
+  conv => rhs; rw [parseValue]
+  simp only [bind_eq, P.bind, h, nextTok_pending o s' t ht]
+
+theorem listLoop_peek (o : Opts) {s s' : PS} {t : Tok} {pol : Policy} {w w' : W} (h : nextTok o s pol w = .ok (t, s') w')
+    (f : Nat) (acc : List V) : listLoop o (f + 1) s acc pol w = listLoop o (f + 1) s' acc pol w' := by
+  have ht := nextTok_tok h
+  conv => lhs; rw [listLoop]
+  conv => rhs; rw [listLoop]
+  simp only [bind_eq, P.bind, h, nextTok_pending o s' t ht]
+
+theorem tableLoop_peek (o : Opts) {s s' : PS} {t : Tok} {pol : Policy} {w w' : W} (h : nextTok o s pol w = .ok (t, s') w')
+    (f : Nat) (acc : List (Str × Str × V)) : tableLoop o (f + 1) s acc pol w = tableLoop o (f + 1) s' acc pol w' := by
+  have ht := nextTok_tok h
+  conv => lhs; rw [tableLoop]
+  conv => rhs; rw [tableLoop]
+  simp only [bind_eq, P.bind, h, nextTok_pending o s' t ht]
+
+theorem parseItem_peek (o : Opts) {s s' : PS} {t : Tok} {pol : Policy} {w w' : W} (h : nextTok o s pol w = .ok (t, s') w')
+    (f : Nat) (cont : Option Path) (name : Option Str) : parseItem o f s cont name pol w = parseItem o f s' cont name pol w' := by
+  have ht := nextTok_tok h
+  unfold parseItem
+  simp only [bind_eq, P.bind, h, nextTok_pending o s' t ht]
+
+theorem packetsLoop_peek (o : Opts) {s s' : PS} {t : Tok} {pol : Policy} {w w' : W} (h : nextTok o s pol w = .ok (t, s') w')
+    (loopAt : Option Path) (slots : List (Option Str)) (f : Nat) (pk : Pk) :
+    packetsLoop o loopAt slots (f + 1) s pk pol w = packetsLoop o loopAt slots (f + 1) s' pk pol w' := by
+  have ht := nextTok_tok h
+  conv => lhs; rw [packetsLoop]
+  conv => rhs; rw [packetsLoop]
+  simp only [bind_eq, P.bind, h, nextTok_pending o s' t ht]
+
+theorem headerLoop_peek (o : Opts) {s s' : PS} {t : Tok} {pol : Policy} {w w' : W} (h : nextTok o s pol w = .ok (t, s') w')
+    (cont : Option Path) (f : Nat) (slots : List (Option Str)) :
+    headerLoop o cont (f + 1) s slots pol w = headerLoop o cont (f + 1) s' slots pol w' := by
+  have ht := nextTok_tok h
+  conv => lhs; rw [headerLoop]
+  conv => rhs; rw [headerLoop]
+  simp only [bind_eq, P.bind, h, nextTok_pending o s' t ht]
+
+theorem blocksLoop_peek (o : Opts) {s s' : PS} {t : Tok} {pol : Policy} {w w' : W} (h : nextTok o s pol w = .ok (t, s') w')
+    (f : Nat) : blocksLoop o (f + 1) s pol w = blocksLoop o (f + 1) s' pol w' := by
+  have ht := nextTok_tok h
+  conv => lhs; rw [blocksLoop]
+  conv => rhs; rw [blocksLoop]
+  simp only [bind_eq, P.bind, h, nextTok_pending o s' t ht]
+
+/-- **a report of the scanner in front of an element of a container** (CIF_RESERVED_WORD: `stop_`, `global_`, `data_` alone, in
+    element position): the scanner reports `r` and hands out the next token; behind it any well-formed items: the container gets
+    exactly those items, the log exactly `r` -/
+theorem scanner_report_run (o : Opts) {path : Path} {put : Container → Cif} {code : Str} (hv : View o path put code)
+    (post : List Item) (seen2 : List Str) (rest : List TokSpec) (s s' : PS) (t : Tok) (r : Report) (fuel : Nat) (w : W)
+    (fs : List Container) (ls : List Loop) (isBlock : Bool) (hcif : w.cif = put (.mk code fs ls))
+    (hpost : wfItems o post seen2 = true) (hseen2 : ∀ k ∈ normNames o ls, k ∈ seen2)
+    (hn : nextTok o s acceptAll w = .ok (t, s') { w with log := r :: w.log })
+    (hfuel : szItems post + 1 ≤ fuel)
+    (hrest : lastIsLoop post = true → ∃ ty tx ts, rest = (ty, tx) :: ts ∧ isTerminator ty = true)
+    (hF : Feeds o s' (itemsToks post ++ rest)) :
+    ∃ s'', elemsLoop o (fuel + post.length) s (some path) isBlock acceptAll w
+        = elemsLoop o fuel s'' (some path) isBlock acceptAll
+            { log := r :: w.log, cif := put (.mk code fs (denoteItems o.dia o.normKey post ls)) }
+      ∧ Feeds o s'' rest := by
+  obtain ⟨F, hF0⟩ : ∃ F, fuel + post.length = F + 1 := ⟨fuel + post.length - 1, by omega⟩
+  obtain ⟨s3, h5, h6⟩ := items_structure o hv post seen2 rest s' fuel acceptAll { w with log := r :: w.log } fs ls isBlock hcif hpost
+    hseen2 (by omega) hrest hF
+  refine ⟨s3, ?_, h6⟩
+  rw [← h5, hF0]
+  exact elemsLoop_peek o hn F _ _
+
+end CifModel.Model.Parser
